@@ -104,7 +104,15 @@ fn gen_texts(r: &mut Rng, corpus: &Corpus) -> (String, Option<String>, &'static 
     o.hostile_comments = r.chance(1, 3);
     o.meta = r.chance(1, 2);
     o.el_cogen_input = true;
-    let base = if !corpus.comps.is_empty() && r.chance(1, 3) { r.pick(&corpus.comps).clone() } else { gen::building(r, &o).to_text() };
+    let base = if !corpus.comps.is_empty() && r.chance(1, 3) {
+        r.pick(&corpus.comps).clone()
+    } else {
+        let mut spec = gen::building(r, &o);
+        if r.chance(1, 30) {
+            gen::without_epb_use(&mut spec, r);
+        }
+        spec.to_text()
+    };
     let (ctext, kind) = match r.below(20) {
         0..=1 => (base, "valid"),
         2 => (corrupt::soup(r), "soup"),
